@@ -145,7 +145,7 @@ func main() {
 	var initial []workItem
 	for _, j := range cfg.Jobs {
 		r := &Result{ID: j.ID, Func: j.Func, Conf: j.Conf, Covers: map[string]int{}, Funcs: map[string]int{}, Stubs: map[string]int{},
-			Assumes: map[string]int{}, Labels: map[string][2]int{}, job: j, start: time.Now(), Unwind: j.Unwind}
+			Assumes: map[string]int{}, Labels: map[string][2]int{}, job: j, Unwind: j.Unwind}
 		if r.Unwind == 0 {
 			r.Unwind = cfg.DefaultUnwind
 		}
@@ -260,6 +260,11 @@ func runPool(prog *ssa.Program, root *ssa.Package, cfg *Config, sh *shared, init
 				res.mu.Lock()
 				fatal := res.Unsupported != "" || res.EngineError != "" || res.BoundExceeded != ""
 				res.mu.Unlock()
+				res.mu.Lock()
+				if res.start.IsZero() {
+					res.start = time.Now()
+				}
+				res.mu.Unlock()
 				if !fatal {
 					e.runPath(it)
 				}
@@ -267,8 +272,9 @@ func runPool(prog *ssa.Program, root *ssa.Package, cfg *Config, sh *shared, init
 				outstanding--
 				res.mu.Lock()
 				res.outstanding--
-				if res.outstanding == 0 {
-					res.WallS = time.Since(res.start).Seconds()
+				if res.outstanding == 0 && !res.start.IsZero() {
+					res.WallS += time.Since(res.start).Seconds()
+					res.start = time.Time{}
 				}
 				res.mu.Unlock()
 				if outstanding == 0 {
